@@ -342,7 +342,7 @@ func main() {
 	r := &runner{c: c, w: &worker{}, perClass: map[string]int{}, fails: map[string][]vlib.Failure{}, rawDec: map[string][]rawFail{}}
 	defer r.w.stop()
 	defer r.flush()
-	c.Res.Rule = "enc: EXHAUSTIVE over every sequence of length 1..3 (quick) / 1..4 (thorough) of a 12-symbol alphabet {bitswap, gateway, graphsync-filecoin x 4 piece CIDs/flag settings, 6 unknown codes below/between/above the known IDs with payloads 0..128}; SAMPLED: sequences of length 4..6 with random payloads 0..300 B and 9 piece CIDs, unknown payload length sweep 0..300 and 1000..1024, metadata.HTTPV1() combinations, 13..40 protocols with distinct IDs; non-trivial = at least 2 protocols one of which has a variable-length encoding. dec: valid encodings, all their truncations, bit flips, byte edits, all ordered pairs and random trains concatenated as given, hostile/boundary/malformed length prefixes, every varint of valid encodings (protocol code, unknown size, gateway length, the varints inside a CIDv1) re-spelled non-minimally with 1..3 and up-to-10-byte padding, padded size varints in front of payloads overlapping a well-formed protocol sequence at every alignment, hand-written non-canonical DAG-CBOR, random bytes <= 1 KiB; non-trivial = accepted with >= 2 protocols, or rejected input of >= 3 bytes. alias (direct oracle only, no Coq cases): histories of 2..4 different metadata values marshalled in turn with every returned slice kept and re-checked, input buffers overwritten after decoding, Get/Protocols results re-checked after later activity, plus concurrent rounds. pdec: every protocol's UnmarshalBinary / ReadFrom(bytes.Reader) / ReadFrom(bytes.Buffer) called directly on its own encoding (round trip), on every other protocol's encoding, with trailing bytes, truncated, bit-flipped, on malformed/non-minimal varints, hostile sizes, the DAG-CBOR variants and random bytes. eq: Metadata.Equal on all ordered pairs of 27 metadata values (equal, unequal, reordered duplicates, different lengths, an Unknown carrying a known protocol's ID and bytes, values that cannot be marshalled) and sampled perturbations. misc (oracle only): WithProtocol (registered custom protocol round-trips and is retrievable; unregistered code = Unknown; parent context unchanged; override of a built-in code; twice-derived context), ErrInvalidMetadata.Error, unmarshalable values held: every way a value comes to hold its protocols (New in every order; then Swap; sort.Reverse; the caller reordering the slice it gave to New; reuse after a failed or truncated UnmarshalBinary; Default and a WithProtocol-derived context) -- the Coq case carries the protocols in the order HELD at marshal time. adwrap (composition C11 x C05 x C13): real metadata put into a real schema.Advertisement, signed with a real key (2 ed25519, 1 secp256k1), stored as DAG-CBOR (and DAG-JSON, oracle only), loaded with BytesToAdvertisement, VerifySignature, metadata.UnmarshalBinary of the Metadata field; untouched, and after changing the metadata bytes post-signing (other protocols, appended protocol, reversed order, every non-minimal varint re-spelling, bit flip, truncation, empty, garbage, one flipped bit inside the block) with and without re-signing. lim: largest graphsync link the DAG-CBOR budget admits"
+	c.Res.Rule = "enc: EXHAUSTIVE over every sequence of length 1..3 (quick) / 1..4 (thorough) of a 12-symbol alphabet {bitswap, gateway, graphsync-filecoin x 4 piece CIDs/flag settings, 6 unknown codes below/between/above the known IDs with payloads 0..128}; SAMPLED: sequences of length 4..6 with random payloads 0..300 B and 9 piece CIDs, unknown payload length sweep 0..300 and 1000..1024, metadata.HTTPV1() combinations, 13..40 protocols with distinct IDs; non-trivial = at least 2 protocols one of which has a variable-length encoding. dec: valid encodings, all their truncations, bit flips, byte edits, all ordered pairs and random trains concatenated as given, hostile/boundary/malformed length prefixes, every varint of valid encodings (protocol code, unknown size, gateway length, the varints inside a CIDv1) re-spelled non-minimally with 1..3 and up-to-10-byte padding, padded size varints in front of payloads overlapping a well-formed protocol sequence at every alignment, hand-written non-canonical DAG-CBOR, random bytes <= 1 KiB; non-trivial = accepted with >= 2 protocols, or rejected input of >= 3 bytes. alias (direct oracle only, no Coq cases): histories of 2..4 different metadata values marshalled in turn with every returned slice kept and re-checked, input buffers overwritten after decoding, Get/Protocols results re-checked after later activity, plus concurrent rounds. pdec: every protocol's UnmarshalBinary / ReadFrom(bytes.Reader) / ReadFrom(bytes.Buffer) called directly on its own encoding (round trip), on every other protocol's encoding, with trailing bytes, truncated, bit-flipped, on malformed/non-minimal varints, hostile sizes, the DAG-CBOR variants and random bytes. eq: Metadata.Equal on all ordered pairs of 27 metadata values (equal, unequal, reordered duplicates, different lengths, an Unknown carrying a known protocol's ID and bytes, values that cannot be marshalled) and sampled perturbations. misc (oracle only): WithProtocol (registered custom protocol round-trips and is retrievable; unregistered code = Unknown; parent context unchanged; override of a built-in code; twice-derived context), ErrInvalidMetadata.Error, unmarshalable values ctor (oracle only): metadata.HTTPV1 and the struct-literal protocols as independent values (decode into / overwrite one, the others and fresh ones still encode as before) and HTTPV1 as a WithProtocol factory in kept-results histories. held: every way a value comes to hold its protocols (New in every order; then Swap; sort.Reverse; the caller reordering the slice it gave to New; reuse after a failed or truncated UnmarshalBinary; Default and a WithProtocol-derived context) -- the Coq case carries the protocols in the order HELD at marshal time. adwrap (composition C11 x C05 x C13): real metadata put into a real schema.Advertisement, signed with a real key (2 ed25519, 1 secp256k1), stored as DAG-CBOR (and DAG-JSON, oracle only), loaded with BytesToAdvertisement, VerifySignature, metadata.UnmarshalBinary of the Metadata field; untouched, and after changing the metadata bytes post-signing (other protocols, appended protocol, reversed order, every non-minimal varint re-spelling, bit flip, truncation, empty, garbage, one flipped bit inside the block) with and without re-signing. lim: largest graphsync link the DAG-CBOR budget admits"
 	c.Res.Exhaustive = false
 	c.Note(fmt.Sprintf("metadata.MaxMetadataSize = %d", metadata.MaxMetadataSize))
 
@@ -374,6 +374,9 @@ func main() {
 			} else {
 				fmt.Println("oracles hold on this input")
 			}
+		case "ctor":
+			fmt.Println("replay ctor: exported constructors as values and as WithProtocol factories")
+			r.doCtor()
 		case "held":
 			rep, perr := r.heldOnce(*rp.Held)
 			fmt.Printf("replay held: %s\n  held at marshal time: %d protocols, prepare error %q\n  MarshalBinary: %s %s\n  Protocols() afterwards: %x\n  UnmarshalBinary of that: %s %s\n  %s\n", rp.Held.sig(), len(rep.Held), rep.PrepErr, rep.MarshalOut, rep.Hex, rep.After, rep.DecOut, rep.DecMsg, perr)
@@ -502,6 +505,9 @@ func main() {
 		}
 		r.doEnc("many-distinct", specs)
 	}
+
+	// ---- exported constructors as values and as factories (oracle only) -----
+	r.doCtor()
 
 	// ---- every way a value comes to hold its protocols ---------------------
 	r.heldAll(al)
